@@ -18,14 +18,40 @@ class CFG:
             t = b.term
             if t.kind == "switch":
                 vals = tuple(v for v, _ in t.targets)
+                known = self._const_discr(b)
                 for v, d in t.targets:
+                    if known is not None and v != known:
+                        continue  # infeasible: the discriminant of a just-built aggregate is known
                     self._add(b.idx, d, ("eq", v))
-                self._add(b.idx, t.otherwise, ("other", vals))
+                if known is None or known not in vals:
+                    self._add(b.idx, t.otherwise, ("other", vals))
             else:
                 for d in t.succs():
                     self._add(b.idx, d, None)
         self._dom = None
         self._reach_cache = {}
+
+    @staticmethod
+    def _const_discr(b):
+        """variant index if the block switches on discriminant(x) where x was assigned a constant aggregate
+        in the same block (e.g. async_trait's `if let Some(ret) = None::<T>` prologue)"""
+        t = b.term
+        if t.discr is None or t.discr.place is None or not t.discr.place.is_local():
+            return None
+        dl = t.discr.place.local
+        src = None
+        for st in b.stmts:
+            if st.kind == "assign" and st.lhs.is_local() and st.lhs.local == dl and st.rv.kind == "discr" and st.rv.place.is_local():
+                src = (st.rv.place.local, st.rv.j.get("variants") or [])
+        if src is None:
+            return None
+        for st in b.stmts:
+            if st.kind == "assign" and st.lhs.is_local() and st.lhs.local == src[0] and st.rv.kind == "agg" and \
+                    st.rv.agg.get("kind") == "adt" and not st.rv.ops:
+                v = st.rv.agg.get("variant")
+                if v in src[1]:
+                    return src[1].index(v)
+        return None
 
     def _add(self, s, d, label):
         if self.body.blocks[d].cleanup:
